@@ -15,6 +15,8 @@ import LWV.Model.Classify
 import LWV.Spec.Classify
 import LWV.Model.Mgmt
 import LWV.Spec.Mgmt
+import LWV.Model.Eapol
+import LWV.Spec.Eapol
 /-
 Line-protocol driver: runs the executable Model (and Spec) on the same operation lines the C
 harness runs.  Compiled as `lwdriver` (nothing below imports Mathlib).
@@ -420,6 +422,36 @@ def stepMp (rt : Bool) (bs : Bytes) : String :=
     | some s => "cls=ok" ++ String.join (mkinds.map fun (n, k) => s!" # {n}=" ++ specParse k s)
   m ++ " ;; spec=" ++ sp
 
+def showWpaData (v t l d i kl rc : Nat) (nonce iv rsc id mic : Bytes) (kd : Bytes) : String :=
+  s!"v={v} t={t} l={l} d={d} i={i} kl={kl} rc={rc} nonce={toHex nonce} iv={toHex iv} rsc={toHex rsc} id={toHex id} mic={toHex mic} kdl={kd.length} kd={toHex kd}"
+
+def stepEap (rt : Bool) (bs : Bytes) : String :=
+  let m := match Model.classify rt bs with
+    | .ok f =>
+      let hs := match Model.checkHandshake f with | .ok r => toString r | _ => "FAULT"
+      let msg := match Model.checkMessage f with | .ok r => toString r | _ => "FAULT"
+      let kdl := match Model.keyDataLength f with | .ok r => toString r | _ => "FAULT"
+      let data := match Model.getWpaData f with
+        | .ok d => showWpaData d.version d.type d.length d.descriptor d.information d.keyLength d.replay d.nonce d.iv d.rsc d.id d.mic d.keyData
+        | .err c => s!"err{c}"
+        | .fault x => s!"FAULT {repr x}"
+      s!"cls=ok hs={hs} msg={msg} kdl={kdl} data={data}"
+    | .err _ => "cls=err"
+    | .fault x => s!"FAULT {repr x}"
+  let sp := match slicesOfCls rt bs with
+    | none => "cls=err"
+    | some s =>
+      let isData := ((s.fc.getD 0 0).toNat / 4) % 4 == 2
+      let hs := Spec.isHandshake isData s.body
+      let msg := if s.body.length < 107 then 16 else match Spec.messageOf (Spec.beVal s.body 13 2) with
+        | some 1 => 1 | some 2 => 2 | some 3 => 4 | some 4 => 8 | _ => 16
+      if hs then
+        let k := Spec.keyFrame s.body
+        s!"cls=ok hs=1 msg={msg} kdl={Spec.beVal s.body 105 2} data=" ++
+          showWpaData k.version k.type k.length k.descriptor k.information k.keyLength k.replay k.nonce k.iv k.rsc k.id k.mic k.keyData
+      else s!"cls=ok hs=-22 msg={msg} kdl=-22 data=err-22"
+  m ++ " ;; spec=" ++ sp
+
 def step (line : String) : String :=
   match line.trimAscii.toString.splitOn " " with
   | ["tagname", v] =>
@@ -540,6 +572,10 @@ def step (line : String) : String :=
   | ["mp", rt, h] =>
     match ofHex h with
     | some bs => stepMp (rt == "1") bs
+    | none => "bad-op"
+  | ["eap", rt, h] =>
+    match ofHex h with
+    | some bs => stepEap (rt == "1") bs
     | none => "bad-op"
   | ["spec-ieee", kind] =>
     match specKinds.lookup kind with
